@@ -103,10 +103,12 @@ import "testing"
 func TestVerifReplay(t *testing.T) {
 	tape := []uint64{%(tape)s}
 	failures, panicked, assumeFailed := VerifReplay(tape, %(fn)s)
-	if assumeFailed {
+	if assumeFailed && len(failures) == 0 {
 		t.Log("VERIF-REPLAY: assumption failed natively (model does not replay)")
 		return
 	}
+	// (an assumption that fails AFTER an assertion already failed only means that the tape, which ends at the
+	// solver's violation, ran out: the recorded failures stand)
 	if panicked != nil {
 		t.Logf("VERIF-REPLAY: PANIC %%v", panicked)
 		t.Fail()
